@@ -28,6 +28,12 @@ def gen_history(rng, hid):
     tys = dnsgen.dotted(ty).decode()
     other = [b"_keep", b"_tcp", b"local"]
     keep_other = rng.random() < 0.4
+    # variant: the browse is of a SUBTYPE of the type; only the subtype PTR is announced
+    sub_browse = rng.random() < 0.25
+    base_tys = tys
+    if sub_browse:
+        sub_ty = [rng.choice([b"_s1", b"_printer"]), b"_sub"] + ty
+        tys = dnsgen.dotted(sub_ty).decode()
     calls = [{"op": "browse", "ty": tys, "ch": "b"}]
     if keep_other:
         calls.append({"op": "browse", "ty": dnsgen.dotted(other).decode(), "ch": "k"})
@@ -39,14 +45,17 @@ def gen_history(rng, hid):
         inst = [b"I%d" % i + rng.choice([b"", b" x", b"Z"])] + ty
         host = rng.choice(hosts)
         shape = rng.choice(["full", "full", "full", "no-srv", "srv-expires"])
+        if sub_browse:
+            shape = rng.choice(["full", "no-srv"])
+        pty = sub_ty if sub_browse else ty
         if shape == "no-srv":
             # PTR and TXT only (the SRV never came, or ran out long ago): still cached for this browse
-            recs += [(ty, 12, 1, 4500, dnsgen.rd_ptr(inst)),
+            recs += [(pty, 12, 1, 4500, dnsgen.rd_ptr(inst)),
                      (inst, 16, 0x8001, 4500, dnsgen.rd_bytes(b"\x01a"))]
             continue
         if shape == "srv-expires":
             nexp += 2          # an A and possibly an AAAA record of its host
-        recs += [(ty, 12, 1, 4500, dnsgen.rd_ptr(inst)),
+        recs += [(pty, 12, 1, 4500, dnsgen.rd_ptr(inst)),
                  (inst, 33, 0x8001, 2 if shape == "srv-expires" else 120, dnsgen.rd_srv(0, 0, 80 + i, host)),
                  (inst, 16, 0x8001, 4500, dnsgen.rd_bytes(b"\x01a")),
                  (host, 1, 0x8001, 120, dnsgen.rd_bytes(bytes([192, 168, 1, 50 + i])))]
@@ -56,7 +65,7 @@ def gen_history(rng, hid):
     for (nm, ty_, _c, _t, rd) in list(recs):
         # subtype PTRs of the browsed type, as a responder with subtypes announces them
         # (not combined with the expired-SRV shape: each known leftover class is observed alone)
-        if ty_ == 12 and nm == ty and nexp == 0 and rng.random() < 0.35:
+        if ty_ == 12 and nm == ty and nexp == 0 and not sub_browse and rng.random() < 0.35:
             recs.append(([rng.choice([b"_s1", b"_printer"]), b"_sub"] + ty, 12, 1, 4500, rd))
             nsub += 1
     nkeep = 0
@@ -85,7 +94,7 @@ def gen_history(rng, hid):
                 sty = dnsgen.dotted(nm).decode()
         steps.append({"t": t, "calls": [{"op": "browse", "ty": sty, "ch": "s"}]})
         steps.append({"run_until": t + 3000})
-    return json.dumps({"id": hid, "sf": nkeep, "nsub": nsub, "nexp": nexp, "ty": tys, "t0": 1000000, "daemons": [{"seed": 1, "ifaces": IFACES}], "steps": steps},
+    return json.dumps({"id": hid, "sf": nkeep, "nsub": nsub, "nexp": nexp, "ty": tys, "qsuffix": base_tys, "t0": 1000000, "daemons": [{"seed": 1, "ifaces": IFACES}], "steps": steps},
                       separators=(",", ":"))
 
 
@@ -104,7 +113,7 @@ def project(line, raw):
     if "error" in o:
         return "SF harness-error"
     nkeep = h["sf"]
-    ty = h["ty"].lower()
+    ty = h.get("qsuffix", h["ty"]).lower()
     stop_t = None
     for st in h["steps"]:
         for c in st.get("calls", []):
